@@ -136,6 +136,59 @@ def check_math(case, s, m1, m2, reg, val, tol):
     return fails, nev
 
 
+# keyword constructions (any order, with/without name=, leading positional argument): each must be
+# the same function as the positional construction.  Identical expressions share one lambdified
+# function, so on a tree where the constructions agree structurally nothing extra is evaluated.
+def _kw_constructions():
+    import itertools
+    vals = {"s": S, "m1": M1, "m2": M2}
+    for perm in itertools.permutations(("s", "m1", "m2")):
+        yield ",".join(perm), (), [(k, vals[k]) for k in perm]
+        for pos in range(4):
+            order = list(perm)
+            order.insert(pos, "name")
+            yield ",".join(order), (), [(k, vals.get(k, "f")) for k in order]
+    for perm in itertools.permutations(("m1", "m2")):
+        yield "s;" + ",".join(perm), (S,), [(k, vals[k]) for k in perm]
+        yield "s;name," + ",".join(perm), (S,), [("name", "f"), *[(k, vals[k]) for k in perm]]
+    yield "s,m1;name,m2", (S, M1), [("name", "f"), ("m2", M2)]
+
+
+KW_VARIANTS = {}  # class key -> list of (label, lambdified function) for expressions that differ from EXPR[k]
+KW_COUNT = 0
+for _k, _cls in CLASSES.items():
+    _seen = {}
+    for _label, _prefix, _kw in _kw_constructions():
+        KW_COUNT += 1
+        try:
+            _e = _cls(*_prefix, **dict(_kw)).doit()
+        except Exception as _exc:  # noqa: BLE001
+            KW_VARIANTS.setdefault(_k, []).append((f"{_label} (raised {_exc!r})", None))
+            continue
+        if _e == EXPR[_k] or _e in _seen:
+            continue
+        _seen[_e] = True
+        KW_VARIANTS.setdefault(_k, []).append((_label, sp.lambdify((S, M1, M2), _e, "numpy")))
+
+
+def check_keyword(case, sf, m1f, m2f, val, tol):
+    fails, nev = [], 0
+    for k, variants in KW_VARIANTS.items():
+        for label, f in variants:
+            nev += 1
+            ref = val[k]
+            if f is None:
+                fails.append((f"keyword_construction:{k}", f"{k}({label}) could not be built at {case}"))
+                continue
+            if not (math.isfinite(ref.real) and math.isfinite(ref.imag)):
+                continue
+            with np.errstate(all="ignore"):
+                v = complex(np.asarray(f(np.array([complex(sf)]), m1f, m2f)).reshape(-1)[0])
+            if not close(v, ref, max(tol, 1e-9), 64 * EPS):
+                fails.append((f"keyword_construction:{k}", f"{k} built with keywords in call order ({label}) evaluates to {v}, the positional construction to {ref} at {case}"))
+    return fails, nev
+
+
 def fr(x: float) -> str:
     f = F(x)
     return f"{f.numerator}/{f.denominator}"
@@ -342,6 +395,11 @@ def check_case(case: dict, deep: bool):
                 if not (abs(v) <= 1e-7):  # nan or a jump: contradicts continuity
                     fails.append((f"threshold_value:{k}", f"{k} at exactly s=4m^2 gives {v} (limit is 0) at {case}"))
 
+    # keyword constructions
+    kf, kn = check_keyword(case, sf, m1f, m2f, val, tol)
+    fails += kf
+    nev += kn
+
     # real input dtype (the way data normally arrives): Python float, numpy.float64 scalar, float64
     # array.  Wherever the exact model is defined and NumPy's real sqrt is not asked for the root of
     # a negative number by the formula AS STATED (PhaseSpaceFactor: q^2 >= 0 and s > 0; Complex and
@@ -534,6 +592,7 @@ def main():
             if sig not in seen_sig:
                 seen_sig.add(sig)
                 failures.append({"signature": sig, "what": what, "case": c})
+    kinds["keyword_constructions_compared_structurally"] = KW_COUNT
     print(json.dumps({"evaluations": evaluations, "distinct": len(distinct), "samples": samples,
                       "kinds": kinds, "notes": {k: {"count": v[0], "example": v[1]} for k, v in notes.items()},
                       "failures": failures}))
